@@ -12,6 +12,11 @@ def B(id, prop, rule, *edits):
     MUTANTS.append({"id": id, "prop": prop, "kind": "break", "rule": rule, "edits": list(edits)})
 
 
+def X(id, prop, *edits):
+    """Leaves the analysable sub-language: the check must fail closed (exit 2), neither pass nor report."""
+    MUTANTS.append({"id": id, "prop": prop, "kind": "outside", "rule": None, "edits": list(edits)})
+
+
 def T(id, prop, *edits):
     MUTANTS.append({"id": id, "prop": prop, "kind": "twin", "rule": None, "edits": list(edits)})
 
@@ -188,3 +193,19 @@ B("c09-pacman-copy-diverges", "C09", "C09.R1", (R + "pac_man/utils.py", "player_
 B("c09-sliding-up", "C09", "C09.R1", (L + "sliding_tile_puzzle/constants.py", "", "replace_stmt", "UP = [-1, 0]", "UP = [1, 0]"))
 B("c09-rw-forward", "C09", "C09.R1", (R + "robot_warehouse/utils_agent.py", "get_new_position_after_forward", "expr", "x - 1", "x + 1"))
 T("c09-twin-maze-kwargs", "C09", (R + "maze/env.py", "Maze.step", "expr", "Position(position.row - 1, position.col)", "Position(row=position.row - 1, col=position.col)"))
+
+# ---------------------------------------------------------------- C17
+RU = L + "rubiks_cube/utils.py"
+B("c17-front-table-flip", "C17", "C17.R4", (RU, "generate_front_move", "expr", "jnp.flip(jnp.arange(cube_size))", "jnp.arange(cube_size)", 1))
+B("c17-rot-direction", "C17", "C17.R4", (RU, "do_rotation", "expr", "-amount.value", "amount.value"))
+B("c17-roll-shift", "C17", "C17.R4", (RU, "do_rotation", "expr", "cube_size * amount.value", "amount.value"))
+B("c17-flatten-coeff", "C17", "C17.R1", (RU, "flatten_action", "expr", "face * len(CubeMovementAmount) * (cube_size // 2) + depth * len(CubeMovementAmount) + amount", "face * len(CubeMovementAmount) * (cube_size // 2) + depth + amount * (cube_size // 2)"))
+B("c17-unflatten-order", "C17", "C17.R1", (RU, "unflatten_action", "expr", "jnp.stack([face, depth, amount], axis=0)", "jnp.stack([depth, face, amount], axis=0)"))
+B("c17-generator-order", "C17", "C17.R2", (RU, "generate_all_moves", "expr", "[generate_up_move, generate_front_move, generate_right_move, generate_back_move, generate_left_move, generate_down_move]", "[generate_up_move, generate_right_move, generate_front_move, generate_back_move, generate_left_move, generate_down_move]"))
+B("c17-left-adjacent-face", "C17", "C17.R4", (RU, "generate_left_move", "expr", "[Face.UP.value, Face.FRONT.value, Face.DOWN.value, Face.BACK.value]", "[Face.UP.value, Face.FRONT.value, Face.DOWN.value, Face.RIGHT.value]"))
+X("c17-value-dependent", "C17", (RU, "do_rotation", "expr", "jnp.rot90(cube[face.value], k=-amount.value)", "jnp.rot90(cube[face.value] * 1, k=-amount.value)"))
+B("c17-depth-ignored", "C17", "C17.R4", (RU, "generate_down_move", "expr", "cube_size - 1 - depth", "cube_size - 1"))
+B("c17-action-spec", "C17", "C17.R1", (L + "rubiks_cube/env.py", "RubiksCube.action_spec", "expr", "[len(Face), self.generator.cube_size // 2, 3]", "[len(Face), self.generator.cube_size // 2, 2]"))
+B("c17-sliding-swap-lost", "C17", "C17.R5", (L + "sliding_tile_puzzle/env.py", "SlidingTilePuzzle._move_empty_tile", "expr", "puzzle[tuple(new_empty_tile_position)]", "puzzle[tuple(empty_tile_position)]"))
+B("c17-sliding-walk-unmasked", "C17", "C17.R5", (L + "sliding_tile_puzzle/generator.py", "RandomWalkGenerator._make_random_move", "expr", "jax.random.choice(key, MOVES, shape=(), p=valid_moves_mask)", "jax.random.choice(key, MOVES, shape=())"))
+T("c17-twin-arange-flip-flip", "C17", (RU, "generate_front_move", "expr", "jnp.flip(jnp.arange(cube_size))", "jnp.flip(jnp.flip(jnp.flip(jnp.arange(cube_size))))", 1))
